@@ -677,3 +677,38 @@ Section Term.
       lia.
   Qed.
 End Term.
+
+Section ErrFlush.
+  Variable c : cfg.
+  Variable F : nat.
+
+  (* the epilogue guard of Dispatcher::poll: the stored stream error (`inner.error`, here the
+     Parse(TooLarge) that accompanies a queued 431) is surfaced only under
+     `state_is_none && write_buf.is_empty()`: when the future resolves with that error nothing
+     is left unflushed.  (The other failing result, PFailIo, is a failure of the write side.) *)
+  Theorem error_only_after_flush x r x' :
+    poll c F x r = (x', PFailTooLarge) -> wb (m x') = 0 /\ state (m x') = SNone.
+  Proof.
+    unfold poll. fold (env x r).
+    destruct (shut (env x r)).
+    - unfold poll_shutdown_branch. destruct (poll_flush_c c (env x r)) as [y fr].
+      destruct fr; intro H; inversion H.
+    - unfold poll_normal.
+      destruct (read_available_c c (env x r)) as [x1 sd].
+      destruct (poll_request c x1) as [x2 u].
+      set (x3 := if sd then do_ev c EvEof (wake (tgt_task (m x2)) x2) else x2).
+      destruct (resp_flush_loop_P3 c F F x3) as [_ Hfail].
+      destruct (resp_flush_loop c F F x3) as [x4 fail]. cbn [snd] in Hfail.
+      destruct Hfail as [->| ->]; [|intro H; inversion H].
+      set (none := match state (m x4) with SNone => true | _ => false end).
+      set (x5 := if rd_disc (m x4) && none then set_shut_err true (err x4) x4 else x4).
+      assert (M5 : m x5 = m x4) by (unfold x5; destruct (rd_disc (m x4) && none); reflexivity).
+      destruct (none && (wb (m x5) =? 0) && err x5) eqn:E.
+      + intro H. inversion H; subst x'. apply andb_true_iff in E as [E _]. apply andb_true_iff in E as [E1 E2].
+        split; [lia|]. rewrite M5. unfold none in E1. destruct (state (m x4)); try discriminate. reflexivity.
+      + destruct (none && (wb (m x5) =? 0) && shut x5).
+        * unfold poll_shutdown_branch. destruct (poll_flush_c c x5) as [y fr].
+          destruct fr; intro H; inversion H.
+        * intro H. inversion H.
+  Qed.
+End ErrFlush.
